@@ -100,6 +100,13 @@ Definition columns_once_b (cf rtl : bool) (n : nat) (cc : Z) (grid : list (list 
 Definition same_render_b (a b : list str) : bool := list_eqb str_eqb a b.
 Definition same_grid_b (a b : list (list Z)) : bool := list_eqb zlist_eqb a b.
 
+(* Printing a frame: the printed lines are the frame rendered at the effective width E, none is wider than
+   the console, and (for frames that fill their width) every line is exactly E cells *)
+Definition print_ok_b (E W : Z) (exact : bool) (rendered printed : list str) : bool :=
+  same_render_b rendered printed
+  && forallb (fun l => cell_len l <=? W) printed
+  && (if exact then forallb (fun l => cell_len l =? E) printed else true).
+
 (* ---- Tree: expected = (depth, label lines) in depth-first order; every output line is a prefix of
    exactly 4*depth cells followed by the label line *)
 Definition tree_line_b (d : Z) (lab ln : str) : bool :=
